@@ -670,6 +670,7 @@ func runProto(plan *Plan, tape *simrt.Tape) *Outcome {
 	slow := false
 	finished := false
 	starvedNow := false
+	budgetOut := false
 	// a client that goes silent inside a command body keeps the request token it was given
 	// with the command line; when all max_req tokens are held that way every other connection
 	// waits for a token forever
@@ -735,6 +736,10 @@ func runProto(plan *Plan, tape *simrt.Tape) *Outcome {
 				// collect replies until the server waits for input or closes
 				for {
 					r := cs.cl.ReadReply()
+					if r.Budget {
+						budgetOut = true
+						break
+					}
 					if r.NoReply || r.Closed {
 						cs.closedByServer = r.Closed
 						if r.Malformed != "" {
@@ -824,6 +829,9 @@ func runProto(plan *Plan, tape *simrt.Tape) *Outcome {
 		x.fail("R-"+simrt.StatusName(res.Status), "", fmt.Sprintf("process ended with %s: %s %v\n%s", simrt.StatusName(res.Status), res.Msg, res.Blocked, trunc(res.Stack, 1500)))
 	}
 	_ = finished
+	if budgetOut && x.viol == nil {
+		out.Inconclusive = "reply-step-budget"
+	}
 	// compare reply sequences with the reference parser's expectations
 	if x.viol == nil && out.Inconclusive == "" && plan.Prop == "C11" {
 		for i, cs := range conns {
